@@ -56,6 +56,8 @@ func (w *W) Addr(scheme string) string {
 			return fmt.Sprintf("%s://127.0.0.1:%d", scheme, 10000+w.addrN)
 		case "ipc":
 			return fmt.Sprintf("ipc:///tmp/vsim-r%d-%d-%d.sock", w.Seed%100000, w.RunIdx, w.addrN)
+		case "ws", "wss":
+			return fmt.Sprintf("%s://127.0.0.1:%d/sp%d", scheme, 10000+w.addrN, w.addrN)
 		}
 	}
 	return fmt.Sprintf("%s://r%d-%d-%d", scheme, w.Seed%100000, w.RunIdx, w.addrN)
